@@ -178,7 +178,13 @@ fn one_execution(content: &Content, scenario: &Scenario, ch: &mut Chooser) -> Ve
             verdict.changed_commands += 1;
         }
         if seen[i] != before[i] && seen[i] != after[i] {
-            let kind = if moved { "reader-saw-a-mixture" } else { "reader-saw-a-refused-or-dry-statement" };
+            let kind = if moved {
+                "reader-saw-a-mixture"
+            } else if writer == "committed" || writer == "no_effect" {
+                "reader-saw-an-in-flight-statement"
+            } else {
+                "reader-saw-a-refused-or-dry-statement"
+            };
             verdict.problem = Some((
                 format!("{kind}|{}", scenario.name),
                 format!("reader command `{command}` answered {} — neither the before-answer {} nor the after-answer {} (writer ended {writer})", seen[i], before[i], after[i]),
